@@ -246,4 +246,22 @@ theorem C01_concurrent_stop_inflight (da sa : Nat) (s : CSt) (mid : List CEv)
     have : (cstep da sa s (.cmdWrite .stopAll)).sent = s.sent := by simp [cstep]
     rw [this, List.drop_eq_nil_of_le (by omega)] at hg; simp at hg
 
+/-! ### the translator tie -/
+
+/-- TRANSLATION THEOREM for the command side of the hydraulic driver.  The tables and facts the translator reads off
+`trigger`, `tick` and `try_recv` of hydraulic.rs on this run say what `Hcu.step` says:
+* `trigger` and `tick` send, for every motion variant, the frames of the emitter `encodeMotion` uses (one table for both);
+* `trigger` stores EVERY motion command, unconditionally and before encoding it, and writes nothing else (`.cmd`);
+* `tick` re-asserts the stored motion command, stop-all when there is none, and writes nothing to the shared context (`.tick`);
+* `try_recv` never writes the transmit side of the context (`.rx`). -/
+theorem C01_driver_shape_translated :
+    (∀ m : Motion, Consts.hcuTriggerArms.contains (Hcu.armRow m) = true ∧ Consts.hcuTickArms.contains (Hcu.armRow m) = true) ∧
+    Consts.hcuTriggerArms.length = 5 ∧ Consts.hcuTickArms = Consts.hcuTriggerArms ∧
+    Consts.hcuTriggerStoresEveryMotionFirst = true ∧
+    Consts.hcuTickReassertsStoredOrStopAll = true ∧ Consts.hcuTickContextWrites = 0 ∧
+    Consts.hcuRecvTxWrites = 0 := by
+  refine ⟨?_, by decide, by decide, by decide, by decide, by decide, by decide⟩
+  intro m
+  cases m <;> simp only [Hcu.armRow] <;> exact ⟨by decide, by decide⟩
+
 end Glonax.Thm.C01
